@@ -2290,7 +2290,12 @@ where
                         offset_table = Some(Vec::new())
                     }
                 }
-                DataToken::ItemStart { len: _ } => { /* no-op */ }
+                DataToken::ItemStart { len } => {
+                    // a zero-length fragment yields no item value token
+                    if len == Length(0) && offset_table.is_some() {
+                        fragments.push(Vec::new());
+                    }
+                }
                 DataToken::SequenceEnd => {
                     // end of pixel data
                     break;
